@@ -49,6 +49,21 @@ def perturb(rng):
         built = getattr(O, which)(lambda x: x.sum(axis=1).astype(np.float64), iters=2, pop_size=8, str_len=5, random_state=rng.randrange(1 << 20), **extra)
         if rng.random() < 0.5:
             built.fit()
+    # a run that the caller aborts (an exception from the objective, caught by the caller — Ctrl-C in a notebook) leaves nothing behind
+    if rng.random() < 0.5:
+        class _Abort(Exception):
+            pass
+        calls = {"n": 0}
+
+        def aborting(x):
+            calls["n"] += 1
+            if calls["n"] >= 2:
+                raise _Abort()
+            return x.sum(axis=1).astype(np.float64)
+        try:
+            getattr(O, rng.choice(["GeneticAlgorithm", "SHAGA"]))(aborting, iters=4, pop_size=8, str_len=6, random_state=rng.randrange(1 << 20)).fit()
+        except _Abort:
+            pass
     other = rng.choice(["GeneticAlgorithm", "DifferentialEvolution", "SHAGA", "jDE"])
     if other in ("GeneticAlgorithm", "SHAGA"):
         getattr(O, other)(lambda x: x.sum(axis=1).astype(np.float64), iters=3, pop_size=8, str_len=6, random_state=rng.randrange(1 << 20)).fit()
